@@ -168,8 +168,9 @@ macro_rules! share_stubs {
         #[kani::stub(<sta_rs::Share as core::ops::Drop>::drop, drop_noop_star_share)]
         #[kani::stub(<adss::AccessStructure as core::ops::Drop>::drop, drop_noop_access)]
         #[kani::stub(<adss::Commune as core::ops::Drop>::drop, drop_noop_commune)]
-        #[kani::stub(<rand::rngs::OsRng as rand_core::RngCore>::next_u64, osrng_next_u64)]
+        #[kani::stub(<rand::rngs::OsRng as rand_core::RngCore>::next_u64, osrng_next_u64_nz)]
         #[kani::stub(star_sharks::Fp::is_valid, fp_is_valid_assume)]
+        #[kani::stub(rand_core::impls::next_u64_via_fill, next_u64_via_fill_counted)]
         #[kani::stub(<star_sharks::Fp as ff::PrimeField>::from_repr, fp_from_repr_spec)]
         #[kani::stub(<star_sharks::Fp as ff::PrimeField>::to_repr, fp_to_repr_spec)]
         $(#[$m])*
